@@ -11,6 +11,7 @@ Persistence models (C19).  No Mathlib.
   * `RL4COEnvBase.__getstate__/__setstate__` as record update
 -/
 import Rl4co.Gen.Basic
+import Rl4co.Generated.Params
 namespace Rl4co.Gen.Persist
 
 open Rl4co.Gen
@@ -187,5 +188,71 @@ on a fresh object (`__dict__` empty, as `pickle`/`deepcopy` create it): `update`
 dict itself; the freshly seeded generator's state is overwritten by `set_state`. -/
 def setstate {V R : Type} (seed0 : R) (setState : R → R → R) (s : Pickled V R) : EnvObj V R :=
   { dict := s.dict, rng := setState seed0 s.rngState }
+
+
+/-! ### dataset files with one capacity per row (`generate_vrp_data` chunks concatenated, `CVRPEnv.load_data`) -/
+
+/-- `td_load["demand"] / td_load["capacity"][:, None]` on a whole file: every row is divided by its own capacity.
+`perRow = false` is the batch-global shortcut `capacity[0]` (a recognised wrong form, see `Params.genLoadDataPerRow`). -/
+def loadRowsWith (perRow : Bool) (rows : List (List Int × Frac)) : List (List Frac) :=
+  rows.map (fun r => loadDemand r.1 (if perRow then r.2 else (rows.headD r).2))
+
+/-- the loader as coded: the divisor form is extracted from the source -/
+def loadRows (rows : List (List Int × Frac)) : List (List Frac) := loadRowsWith Params.genLoadDataPerRow rows
+
+/-! ### the npz container at the level of a key → array map with dtype / shape tags
+(`save_tensordict_to_npz`, `load_npz_to_tensordict`).  Array contents are abstract (`α`); what numpy is trusted to do is
+stated once, as a `Codec`. -/
+
+structure Arr (α : Type) where
+  dtype : String
+  shape : List Nat
+  data : List α
+
+/-- a `TensorDict`: ordered entries and the batch size (`batch_size=[B]`) -/
+structure TDict (α : Type) where
+  entries : List (String × Arr α)
+  batch : Nat
+
+/-- TRUSTED: `np.savez(**{k: v.numpy()})` followed by `np.load` gives, for every stored name, an array with the same
+dtype, shape and contents, and `dict(np.load(f))` lists the names in the order they were written -/
+structure Codec (α F : Type) where
+  enc : Arr α → F
+  dec : F → Arr α
+  dec_enc : ∀ a, dec (enc a) = a
+
+/-- `x_dict = {k: v.numpy() for k, v in tensordict.items()}; np.savez(filename, **x_dict)` -/
+def npzSave {α F : Type} (c : Codec α F) (td : TDict α) : List (String × F) :=
+  td.entries.map (fun e => (e.1, c.enc e.2))
+
+/-- `x_dict = dict(np.load(f)); batch_size = x_dict[first key].shape[0]; TensorDict(x_dict, batch_size=batch_size)`:
+`none` = the `IndexError` of an empty file / a 0-dimensional first array, or TensorDict's refusal of an entry whose
+leading dimension is not the batch size -/
+def npzLoad {α F : Type} (c : Codec α F) (file : List (String × F)) : Option (TDict α) :=
+  match file with
+  | [] => none
+  | (_, f0) :: _ =>
+    match (c.dec f0).shape with
+    | [] => none
+    | b :: _ =>
+      let entries := file.map (fun e => (e.1, c.dec e.2))
+      if entries.all (fun e => e.2.shape.head? == some b) then some { entries := entries, batch := b } else none
+
+/-- shape-level view used by the driver: batch size the loader derives from a list of shapes (first key's leading dimension) -/
+def npzBatch (shapes : List (List Nat)) : Option Nat :=
+  match shapes with
+  | [] => none
+  | [] :: _ => none
+  | (b :: _) :: _ => if shapes.all (fun sh => sh.head? == some b) then some b else none
+
+/-! ### `__getstate__` / `__setstate__`, parametric in the statements found in the source -/
+
+/-- `copies`: `state = self.__dict__.copy()` — the whole attribute dictionary is the state -/
+def getstateP {V R : Type} (copies : Bool) (e : EnvObj V R) : Pickled V R :=
+  { dict := if copies then e.dict else [], rngState := e.rng }
+
+/-- `updates`: `self.__dict__.update(state)`; `restores`: `self.rng.set_state(state["rng"])` -/
+def setstateP {V R : Type} (updates restores : Bool) (seed0 : R) (setState : R → R → R) (s : Pickled V R) : EnvObj V R :=
+  { dict := if updates then s.dict else [], rng := if restores then setState seed0 s.rngState else seed0 }
 
 end Rl4co.Gen.Persist
